@@ -16,6 +16,9 @@ type Property struct {
 	Run func(w *World)
 	// Rule describes how cases are generated and what makes one non-trivial.
 	Rule string
+	// Post, if set, runs after the bubble was left (real clock, no scheduler):
+	// history checks that need real time, e.g. porcupine with a timeout.
+	Post func(w *World)
 }
 
 var registry = map[string]*Property{}
@@ -89,6 +92,16 @@ func RunOne(t *testing.T, prop *Property, tier string, tp *Tape, keepLog bool) (
 			res.HErr = "bubble did not start"
 		}
 		return res
+	}
+	if prop.Post != nil && w.Viol == nil && w.HErr == "" && res.HErr == "" {
+		w.done = false
+		prop.Post(w)
+		w.done = true
+	}
+	for k := range w.Sample {
+		if len(k) > 0 && k[0] == '_' {
+			delete(w.Sample, k)
+		}
 	}
 	res.Hash = w.hash
 	res.RelHash = w.relHash
